@@ -121,4 +121,24 @@ PROPS = {
         "trusted_base": TB_SYNC + ["zlib (flate2) inflates what it deflated; the harness decodes snapshots with flate2 + serde_json::Value"],
         "assumptions": ["valid local operations", "the server is a correct version chain"],
     },
+    "C03": {
+        "module": "TcVerif.Props.C03",
+        "theorems": ["Tc.C03_transform_symm", "Tc.C03_order_independent₂", "Tc.merged_comm", "Tc.C03_later_update_wins",
+                     "Tc.C03_delete_beats_update", "Tc.C03_different_props_kept", "Tc.C03_different_tasks_kept",
+                     "Tc.C03_concurrent_creates_merge", "Tc.C03_causal_override", "Tc.C03_dropped_only_by_rule",
+                     "Tc.rebase_symm", "Tc.C01_exec_reachable"],
+        "leanchecker_modules": ["TcVerif.Proofs.Ot", "TcVerif.Proofs.RebaseSymm"],
+        "runs": [
+            {"family": "hist", "flags": ["--conflicts"], "quick": {"cases": 250, "max_len": 30}, "thorough": {"cases": 12000, "max_len": 30}},
+        ],
+        "judge_preds": ["orderindep", "converged", "invariant"],
+        "nontrivial": lambda imp, ops: sum(1 for l in ops if l.startswith("C ") and " update 1 " in l) >= 2,
+        "rule": "conflict groups: 2-3 replicas on a common synchronized base (task 1 everywhere, task 2 nowhere, task 3 sometimes) each make "
+                "1-3 concurrent changes (updates over 2 properties x 4 values incl. removal x 4 timestamps with ties, deletes, creates), "
+                "sometimes followed by a causally later change; EVERY permutation of the sync order is run as its own case and the Lean "
+                "judge requires all orders of a group to end in the same tasks, equal to the chain replay; the model's prediction "
+                "(proved winners) is compared line by line; non-trivial = at least two concurrent updates of the shared task; distinct by SHA-1",
+        "trusted_base": TB_SYNC,
+        "assumptions": ["valid local operations", "three-replica order independence is exercised by the correspondence run; the Lean theorem is for two replicas (TP2 not yet proved)"],
+    },
 }
